@@ -74,6 +74,7 @@ pub fn run(run: &mut Run) {
     run.assumptions.push(format!("Typst inputs with bracket nesting deeper than {TYPST_MAX_DEPTH} are excluded by construction (open known finding KF-C01-typst-deep-nesting)"));
 
     run.guard = true;
+    run.max_shrink_iters = 400;
     run.stack = 2 << 20;
     witnesses(run);
     // 1. generated
